@@ -44,12 +44,32 @@ func (c14) Components() map[string][]string {
 func (c14) Gen(r *sim.Rand, tier string, run uint64) *sim.Scenario {
 	sc := &sim.Scenario{Cfg: map[string]int64{}}
 	kind := 0
-	if r.Chance(2, 5) {
-		kind = 1
+	switch x := r.Intn(10); {
+	case x < 3:
+		kind = 1 // bare cpualt, DisassembleCurrentPC before each Step
+	case x < 5:
+		kind = 2 // bare cpu65c816 on bus.Bus + SimMem, DisassembleCurrentPC before each Step
 	}
 	sc.Cfg["kind"] = int64(kind)
 	genStartState(r, sc.Cfg, kind)
 	sc.Ops = genProgram(r, r.Range(20, 60), byte(sc.Cfg["p"]), byte(sc.Cfg["e"]))
+	if r.Chance(1, 5) {
+		// place the program so that one of its instructions starts on the last bytes of the
+		// bank ($FFFD-$FFFF): operand fetches and the trace must wrap the same way
+		k := r.Intn(len(sc.Ops))
+		off := 0
+		for _, op := range sc.Ops[:k] {
+			off += len(op.B)
+		}
+		edge := int64(sim.PickInt(r, 0xFFFD, 0xFFFE, 0xFFFF, 0xFFFE))
+		if int64(off) < edge {
+			bank := sc.Cfg["pc"] & 0xFF0000
+			if kind == 0 {
+				bank = int64(sim.PickInt(r, 0x7E0000, 0x7E0000, 0x000000, 0x010000, 0x7F0000))
+			}
+			sc.Cfg["pc"] = bank | (edge - int64(off))
+		}
+	}
 	plen := len(programBytes(sc))
 	sc.Cfg["budget"] = int64(sim.PickInt(r, 200, 500, 1000, 2000, r.Range(0, 3000)))
 	// target: the k-th byte of the program region (often an instruction boundary), or never reached
@@ -95,7 +115,7 @@ func (c14) Exec(sc *sim.Scenario, env *sim.Env) *sim.Violation {
 	sim.Activate(env)
 	defer sim.Deactivate()
 	env.SetWatchdog(400000000)
-	if sc.C("kind") == 1 {
+	if k := sc.C("kind"); k == 1 || k == 2 {
 		return c14alt(sc, env)
 	}
 	return c14sys(sc, env)
@@ -314,7 +334,13 @@ func c14alt(sc *sim.Scenario, env *sim.Env) *sim.Violation {
 		if h := uint32(sc.C("hole")); h != 0 {
 			holeLo, holeHi = h&0xFFFFF0, h&0xFFFFF0|0xF
 		}
-		mc := NewAltMachine(env, 0, mem, holeLo, holeHi)
+		var mc *Machine
+		if sc.C("kind") == 2 {
+			mc = NewBusMachine(env, 0, mem)
+			holeLo, holeHi = 0, 0
+		} else {
+			mc = NewAltMachine(env, 0, mem, holeLo, holeHi)
+		}
 		mc.CPU.SetRegs(startRegs(sc))
 		var recs []preStep
 		var lines [][]byte
@@ -347,7 +373,7 @@ func c14alt(sc *sim.Scenario, env *sim.Env) *sim.Violation {
 	env.ObsU64(regsA.Hash())
 	env.ObsBytes(ss.All())
 	if pA != pB {
-		return &sim.Violation{Oracle: "tracing_changes_outcome", Step: -1, Msg: fmt.Sprintf("cpualt: traced run panicked=%v (%s), untraced panicked=%v (%s)", pA, msgA, pB, msgB)}
+		return &sim.Violation{Oracle: "tracing_changes_outcome", Step: -1, Msg: fmt.Sprintf("bare CPU: traced run panicked=%v (%s), untraced panicked=%v (%s)", pA, msgA, pB, msgB)}
 	}
 	if pA {
 		if isIndexPanic(msgA) {
